@@ -249,7 +249,7 @@ fn oracle_combo<C: RangeCombo>(rng: &mut Rng, w: u32, s: u32, bps: &[(u32, Vec<u
             let (b, p) = fixed_bp.unwrap_or_else(|| pick_bp(rng, bps));
             let (b, p, mode) = if hunt && step + 2 >= n {
                 let (bb, ps) = bps.last().unwrap();
-                (*bb, *ps.last().unwrap(), Some(if step + 2 == n { 4 } else { 3 }))
+                (*bb, *ps.last().unwrap(), Some(if step + 2 == n { 7 } else { 6 }))
             } else {
                 (b, p, None)
             };
@@ -280,6 +280,15 @@ fn oracle_combo<C: RangeCombo>(rng: &mut Rng, w: u32, s: u32, bps: &[(u32, Vec<u
         if fin_inv {
             let wraps = fin_lower.wrapping_add((1u128 << (s - w)) - 1) & mask(s) < fin_lower;
             rep.count(if wraps { "seal.inverted.wrap" } else { "seal.inverted.nowrap" });
+        }
+        if s > 2 * w {
+            let (lo, r, _) = enc_view::<C>(&coder);
+            let up = lo.wrapping_add(r) & mask(s);
+            let low_part = up & (pow2(s - w) - 1);
+            if low_part >= 1 && low_part < pow2(s - 2 * w) {
+                rep.count(&format!("C11.d3_condition.{}", tag));
+            }
+            if hunt { rep.count("C11.hunted"); }
         }
         let final_snap = coder.pos();
         let sealed_w: Vec<C::W> = coder.into_compressed().unwrap();
